@@ -240,11 +240,18 @@ pub fn faultfit(cfg: &Cfg, out: &mut Out<f64>) {
     let (n, p) = (cfg.usize("n", 6), cfg.usize("p", 1));
     let k = cfg.opt_usize("k");
     let persistent = cfg.usize("persistent", 0) == 1;
-    let (x, y, start) = data(n, p);
+    let (x, y, mut start) = data(n, p);
+    // other starting points give other optimizer trajectories (rejected trial steps, termination right after one)
+    let far = cfg.usize("far", 0);
+    if far > 0 {
+        start = start.map(|v| v * (1.0 + far as f64) + 0.3 * far as f64);
+    }
     let model = NModel { x: x.clone(), alpha: start.clone(), poison: None, calls: Cell::new(0), fail_at: k, persistent, log: Default::default() };
     let built = LevMarProblemBuilder::new(model).observations(y.clone()).build();
     let Ok(problem) = built else {
-        out.fact("C09.build_ok", false, "build failed".into());
+        if k.is_none() {
+            out.fact("C09.build_ok", false, "build failed".into());
+        }
         return;
     };
     let (fr, ok) = match LevMarSolver::default().fit_with_statistics(problem) {
@@ -273,6 +280,145 @@ pub fn faultfit(cfg: &Cfg, out: &mut Out<f64>) {
             out.eq("C09.present_coefficients_match_reported_params", format!("c[{i}]"), c[i], cf[i]);
         }
     }
+}
+
+/// `faultfit` with a failure at EVERY model call index of the run (transient and persistent), in one process:
+/// the fault-free run is executed first to count the calls.  Facts of failing cases are merged (prefixed with the case).
+pub fn faultsweep(cfg: &Cfg, out: &mut Out<f64>) {
+    let mut base = Out::<f64>::new();
+    faultfit(cfg, &mut base);
+    let total = base.notes.iter().find_map(|n| n.strip_prefix("calls=").and_then(|r| r.split(' ').next()).and_then(|v| v.parse::<usize>().ok())).unwrap_or(30);
+    out.notes.push(format!("fault-free run: {total} model calls; {}", base.notes.first().map(|s| s.chars().take(120).collect::<String>()).unwrap_or_default()));
+    for (n, h, d) in base.facts {
+        out.fact(&n, h, d);
+    }
+    let mut cases = 0;
+    for persistent in [0usize, 1] {
+        for k in 0..=total {
+            let mut c = Cfg(cfg.0.clone());
+            c.0.insert("k".into(), k.to_string());
+            c.0.insert("persistent".into(), persistent.to_string());
+            let mut o = Out::<f64>::new();
+            let r = std::panic::catch_unwind(std::panic::AssertUnwindSafe(|| faultfit(&c, &mut o)));
+            cases += 1;
+            if let Err(e) = r {
+                let msg = e.downcast_ref::<String>().cloned().or_else(|| e.downcast_ref::<&str>().map(|s| s.to_string())).unwrap_or_default();
+                out.fact("C09.no_panic_at_any_call_index", false, format!("panic with a model failure at call {k} (persistent={persistent}) of {total}: {msg}"));
+                continue;
+            }
+            for (n, h, d) in o.facts {
+                if !h {
+                    out.fact(&n, false, format!("[failure at call {k}, persistent={persistent}] {d}"));
+                }
+            }
+            for ob in o.obligations {
+                for (l, a, b) in ob.eqs {
+                    let (x, y): (f64, f64) = (a.parse().unwrap_or(f64::NAN), b.parse().unwrap_or(f64::NAN));
+                    if !((x - y).abs() <= 1e-6 * (1.0 + x.abs().max(y.abs()))) {
+                        out.fact(&ob.name, false, format!("[failure at call {k}, persistent={persistent}] {l}: {a} vs {b}"));
+                    }
+                }
+            }
+        }
+    }
+    out.fact("C09.no_panic_at_any_call_index", true, format!("{cases} cases"));
+    out.notes.push(format!("cases={cases}"));
+}
+
+/// degenerate shapes with finite values (C08): N observations vs M = P+1 basis functions, N < M, N = M, N = 1, P = 0,
+/// one and several right-hand sides, sequential and parallel flavour; every public step under catch_unwind and a
+/// per-case watchdog (the whole grid runs in one process; the driver's timeout covers non-termination)
+pub fn shapes(cfg: &Cfg, out: &mut Out<f64>) {
+    let (nmax, pmax) = (cfg.usize("nmax", 5), cfg.usize("pmax", 3));
+    let mut cases = 0;
+    for n in 1..=nmax {
+        for p in 0..=pmax {
+            for flavour in 0..4usize {
+                let (mrhs, par) = (flavour & 1 == 1, flavour & 2 == 2);
+                for weighted in [false, true] {
+                    cases += 1;
+                    let tag = format!("N={n} P={p} M={} mrhs={mrhs} par={par} weights={weighted}", p + 1);
+                    let r = std::panic::catch_unwind(std::panic::AssertUnwindSafe(|| {
+                        let (x, y, start) = data(n, p);
+                        let w = DVector::from_fn(n, |i, _| 1.0 + 0.25 * i as f64);
+                        let ym = DMatrix::from_fn(n, 2, |i, j| y[i] * (1.0 + j as f64) + 0.1 * j as f64);
+                        let model = PlainModel { x, alpha: start, poison: None };
+                        macro_rules! drive {
+                            ($b:expr) => {{
+                                let mut b = $b;
+                                if weighted {
+                                    b = b.weights(w.clone());
+                                }
+                                if let Ok(mut problem) = b.build() {
+                                    let _ = problem.residuals();
+                                    let _ = problem.jacobian();
+                                    let pr = problem.params();
+                                    problem.set_params(&pr);
+                                    let _ = problem.jacobian();
+                                    let _ = problem.linear_coefficients();
+                                    match LevMarSolver::default().fit(problem) {
+                                        Ok(fr) => {
+                                            let _ = fr.best_fit();
+                                        }
+                                        Err(fr) => {
+                                            let _ = fr.best_fit();
+                                        }
+                                    }
+                                }
+                            }};
+                        }
+                        match (mrhs, par) {
+                            (false, false) => drive!(LevMarProblemBuilder::new(model).observations(y.clone())),
+                            (true, false) => drive!(LevMarProblemBuilder::mrhs(model).observations(ym.clone())),
+                            (false, true) => drive!(LevMarProblemBuilder::new_parallel(model).observations(y.clone())),
+                            (true, true) => drive!(LevMarProblemBuilder::mrhs_parallel(model).observations(ym.clone())),
+                        }
+                    }));
+                    if let Err(e) = r {
+                        let msg = e.downcast_ref::<String>().cloned().or_else(|| e.downcast_ref::<&str>().map(|s| s.to_string())).unwrap_or_default();
+                        out.fact("C08.no_panic_on_degenerate_shapes", false, format!("{tag}: panic: {}", msg.chars().take(160).collect::<String>()));
+                    }
+                    if !mrhs {
+                        // statistics (single right-hand side only)
+                        let r = std::panic::catch_unwind(std::panic::AssertUnwindSafe(|| {
+                            let (x, y, start) = data(n, p);
+                            let model = PlainModel { x, alpha: start, poison: None };
+                            let w = DVector::from_fn(n, |i, _| 1.0 + 0.25 * i as f64);
+                            if par {
+                                let mut b = LevMarProblemBuilder::new_parallel(model).observations(y);
+                                if weighted {
+                                    b = b.weights(w);
+                                }
+                                if let Ok(problem) = b.build() {
+                                    if let Ok((_fr, st)) = LevMarSolver::default().fit_with_statistics(problem) {
+                                        let _ = st.calculate_correlation_matrix();
+                                        let _ = st.confidence_band_radius(0.9);
+                                    }
+                                }
+                            } else {
+                                let mut b = LevMarProblemBuilder::new(model).observations(y);
+                                if weighted {
+                                    b = b.weights(w);
+                                }
+                                if let Ok(problem) = b.build() {
+                                    if let Ok((_fr, st)) = LevMarSolver::default().fit_with_statistics(problem) {
+                                        let _ = st.calculate_correlation_matrix();
+                                        let _ = st.confidence_band_radius(0.9);
+                                    }
+                                }
+                            }
+                        }));
+                        if let Err(e) = r {
+                            let msg = e.downcast_ref::<String>().cloned().or_else(|| e.downcast_ref::<&str>().map(|s| s.to_string())).unwrap_or_default();
+                            out.fact("C08.no_panic_on_degenerate_shapes", false, format!("{tag} [fit_with_statistics]: panic: {}", msg.chars().take(160).collect::<String>()));
+                        }
+                    }
+                }
+            }
+        }
+    }
+    out.fact("C08.no_panic_on_degenerate_shapes", true, format!("{cases} shape cases"));
+    out.notes.push(format!("cases={cases}"));
 }
 
 /// builder decision table on concrete sizes (native replay / path validation for Engine M, C18)
